@@ -52,18 +52,19 @@ type tierCfg struct {
 	files     int // seal -> write file -> load -> unseal round trips through the stored file
 	histories int // operation sequences on ONE question model against a reference model
 	splices   int // several values sealed one after the other in one process, then every cross-combination of two of them
+	mixed     int // the same programs used for a text question and for a picture question in one process
 }
 
 func cfg(tier string) tierCfg {
 	if tier == "thorough" {
-		return tierCfg{sealed: 240, allBytes: true, roundtrip: 6000, questions: 6000, entropy: 600, freshKeys: 6, files: 4000, histories: 6000, splices: 400}
+		return tierCfg{sealed: 240, allBytes: true, roundtrip: 6000, questions: 6000, entropy: 600, freshKeys: 6, files: 4000, histories: 6000, splices: 400, mixed: 1500}
 	}
-	return tierCfg{sealed: 16, allBytes: false, roundtrip: 1900, questions: 260, entropy: 40, files: 160, histories: 240, splices: 24}
+	return tierCfg{sealed: 16, allBytes: false, roundtrip: 1900, questions: 260, entropy: 40, files: 160, histories: 240, splices: 24, mixed: 40}
 }
 
 func (d *D) Count(tier string) int {
 	c := cfg(tier)
-	return c.sealed + c.roundtrip + c.questions + c.entropy + c.files + c.histories + c.splices
+	return c.sealed + c.roundtrip + c.questions + c.entropy + c.files + c.histories + c.splices + c.mixed
 }
 
 func setPlain(sc *core.Scenario, p string) {
@@ -161,6 +162,16 @@ func (d *D) Base(idx int, ctx *core.Ctx) *core.Scenario {
 	sc := &core.Scenario{Property: "C20", Seed: ctx.Seed, Index: idx, Level: "sealfault", ReplayExact: true, Sealed: map[string]string{}}
 	k := keys[r.Intn(len(keys))]
 	switch {
+	case idx >= c.sealed+c.roundtrip+c.entropy+c.questions+c.files+c.histories+c.splices:
+		// programs that print AND draw, used by a text question and by a picture question of the same process
+		sc.Kind = "question-mixed"
+		n := r.Range(2, 4)
+		sc.Sealed["choices"] = fmt.Sprint(n)
+		sc.Sealed["matching"] = fmt.Sprint(r.Intn(1 << n))     // choices whose text output equals the question's
+		sc.Sealed["matching_pic"] = fmt.Sprint(r.Intn(1 << n)) // choices whose picture equals the question's
+		sc.Sealed["multi"] = []string{"0", "1"}[r.Intn(2)]
+		sc.Sealed["order"] = []string{"text-first", "picture-first"}[r.Intn(2)]
+		sc.Sealed["variant"] = fmt.Sprint(r.Intn(1000))
 	case idx >= c.sealed+c.roundtrip+c.entropy+c.questions+c.files+c.histories:
 		// several answers sealed one after the other for the same key in this process (as
 		// sealing a whole course does), then pieces of one stored value put into another
@@ -740,6 +751,102 @@ func (d *D) svgQuestion(answerLine string, multi bool, n, matching, variant int)
 	return b.String()
 }
 
+// mixedQuestion writes a question whose question and choices are links to programs that
+// print AND draw. kind "text" asks for the text output (evy:text), kind "svg" for the
+// picture (evy:svg); the program files are byte-identical in both kinds. matchT / matchP say
+// which choices have the question's text / the question's picture.
+func (d *D) mixedQuestion(answerLine string, multi bool, n, matchT, matchP, variant int, kind string) string {
+	dir := fmt.Sprintf("mix%d", variant%7)
+	abs := filepath.Join(d.workdir(), dir)
+	os.RemoveAll(abs)       //nolint:errcheck
+	os.MkdirAll(abs, 0o755) //nolint:errcheck
+	word := []string{"dot", "ring", "o"}[variant%3]
+	radius := 5 + variant%4
+	prog := func(text string, r int) string { return fmt.Sprintf("print %q\nmove 50 50\ncircle %d\n", text, r) }
+	os.WriteFile(filepath.Join(abs, "q.evy"), []byte(prog(word, radius)), 0o644) //nolint:errcheck
+	at := "single-choice"
+	if multi {
+		at = "multiple-choice"
+	}
+	var b strings.Builder
+	fmt.Fprintf(&b, "---\ntype: question\ndifficulty: easy\nanswer-type: %s\n%s\n---\n\n## Generated question\n\nWhich program gives this?\n\n[question](%s/q.evy \"evy:%s\")\n\nChoose:\n\n", at, answerLine, dir, kind)
+	for i := 0; i < n; i++ {
+		text, r := word, radius
+		if matchT&(1<<i) == 0 {
+			text = []string{word + ".", strings.ToUpper(word[:1]) + word[1:], word + " "}[(i+variant)%3]
+		}
+		if matchP&(1<<i) == 0 {
+			r = radius + 1 + (i+variant)%2
+		}
+		src := prog(text, r)
+		if (i+variant)%2 == 1 {
+			src = fmt.Sprintf("// choice %d\n", i) + src // same outputs, different source text
+		}
+		os.WriteFile(filepath.Join(abs, fmt.Sprintf("c%d.evy", i)), []byte(src), 0o644) //nolint:errcheck
+		fmt.Fprintf(&b, "- [answer](%s/c%d.evy \"evy:source\")\n", dir, i)
+	}
+	return b.String()
+}
+
+// runMixed: verification is a function of the question file. The same program files
+// are used by a text question and by a picture question, one after the other in this
+// process, for every subset of marked answers; each verdict is compared with the
+// reference for its own kind of output.
+func (d *D) runMixed(sc *core.Scenario, ctx *core.Ctx) *core.Violation {
+	var n, matchT, matchP, variant int
+	fmt.Sscan(sc.Sealed["choices"], &n)           //nolint:errcheck
+	fmt.Sscan(sc.Sealed["matching"], &matchT)     //nolint:errcheck
+	fmt.Sscan(sc.Sealed["matching_pic"], &matchP) //nolint:errcheck
+	fmt.Sscan(sc.Sealed["variant"], &variant)     //nolint:errcheck
+	multi := sc.Sealed["multi"] == "1"
+	kinds := []string{"text", "svg"}
+	if sc.Sealed["order"] == "picture-first" {
+		kinds = []string{"svg", "text"}
+	}
+	for marked := 1; marked < 1<<n; marked++ {
+		if !multi && marked&(marked-1) != 0 {
+			continue
+		}
+		ans := letters(marked, n)
+		for _, kind := range kinds {
+			matching := matchT
+			if kind == "svg" {
+				matching = matchP
+			}
+			content := d.mixedQuestion("answer: "+ans, multi, n, matchT, matchP, variant, kind)
+			verr, berr, p := d.verify(content, "")
+			if ctx != nil {
+				ctx.Inc("evaluations", 1)
+				ctx.Inc("verifications", 1)
+				ctx.Inc("verifications_of_text_and_picture_questions_sharing_programs", 1)
+				ctx.Distinct(prng.HashString(fmt.Sprint("mixed", n, matchT, matchP, marked, multi, kind, variant%12, sc.Sealed["order"])))
+			}
+			obs := map[string]any{"choices": n, "asked_for": kind, "order": sc.Sealed["order"], "choices_with_the_question_text": letters(matchT, n), "choices_with_the_question_picture": letters(matchP, n),
+				"marked_correct": ans, "multiple_choice": multi, "question_file": content}
+			if p != "" {
+				obs["panic"] = p
+				return &core.Violation{Oracle: "no-panic", Signature: "panic:verify", Expected: "verification never crashes", Observed: obs, Match: map[string]string{"oracle": "panic"}}
+			}
+			if berr != nil {
+				obs["error"] = berr.Error()
+				return &core.Violation{Oracle: "verify-iff", Signature: "question-rejected", Expected: "a well-formed generated question file is accepted by NewQuestionModel", Observed: obs, Match: map[string]string{"oracle": "build"}}
+			}
+			want := marked == matching
+			if (verr == nil) != want {
+				obs["verify_error"] = fmt.Sprint(verr)
+				sig := "accepted-wrong-marking"
+				if want {
+					sig = "rejected-right-marking"
+				}
+				return &core.Violation{Oracle: "verify-iff", Signature: sig + ":shared-programs",
+					Expected: "verification accepts a question exactly when the marked choices are precisely the choices whose output equals the question's output – whatever other questions were verified before in the same process",
+					Observed: obs, Match: map[string]string{"oracle": "verify-iff", "case": sig}}
+			}
+		}
+	}
+	return nil
+}
+
 func letters(set int, n int) string {
 	var ls []string
 	for i := 0; i < n; i++ {
@@ -1193,6 +1300,8 @@ func (d *D) run(sc *core.Scenario, ctx *core.Ctx, tier string) *core.Violation {
 		return d.runFile(sc, ctx)
 	case "splice":
 		return d.runSplice(sc, ctx)
+	case "question-mixed":
+		return d.runMixed(sc, ctx)
 	case "corruption":
 		return d.runCorruption(sc, ctx, cfg(tier).allBytes)
 	case "roundtrip":
@@ -1246,7 +1355,7 @@ func (d *D) Describe(ev *core.Evidence, st *core.Stats) {
 	faults["entropy-source-failed"] = c["entropy_fault_made_encrypt_fail"]
 	ev.Coverage["faults_injected"] = faults
 	ev.Coverage["probes"] = map[string]int64{"damaged_values_still_opening_to_original": c["damaged_values_still_opening_to_original"], "wrong_key_opened_to_original": c["wrong_key_opened_to_original"],
-		"verifications": c["verifications"], "verifications_of_corrupted_sealed_files": c["verifications_of_corrupted_sealed_files"], "roundtrips": c["roundtrips"], "frontmatter_roundtrips": c["frontmatter_roundtrips"], "file_roundtrips": c["file_roundtrips"], "model_histories": c["model_histories"], "model_history_operations": c["model_history_operations"], "pairs_of_values_sealed_in_one_process_and_spliced": c["splice_pairs"]}
+		"verifications": c["verifications"], "verifications_of_corrupted_sealed_files": c["verifications_of_corrupted_sealed_files"], "roundtrips": c["roundtrips"], "frontmatter_roundtrips": c["frontmatter_roundtrips"], "file_roundtrips": c["file_roundtrips"], "model_histories": c["model_histories"], "model_history_operations": c["model_history_operations"], "pairs_of_values_sealed_in_one_process_and_spliced": c["splice_pairs"], "verifications_of_text_and_picture_questions_sharing_programs": c["verifications_of_text_and_picture_questions_sharing_programs"]}
 	ev.Coverage["components"] = map[string][]string{"real": {"learn.Encrypt/Decrypt (RSA-OAEP + AES-GCM envelope)", "questionFrontmatter Seal/Unseal/getAnswer", "QuestionModel: markdown parsing, Verify, verifyChoiceMatch, correctAnswerIndices", "runEvy (the real evaluator produces every output)"},
 		"stub": {"crypto/rand.Reader (seeded stream, made to fail or run short)", "stored sealed value (damaged by the simulator)"}}
 	ev.Assumptions = []string{
